@@ -1,6 +1,7 @@
 import CircBuf.Lemmas.Conserve
 import CircBuf.Lemmas.Truncate
 import CircBuf.Lemmas.HistoryConserve
+import CircBuf.Lemmas.HistoryFullConserve
 /-!
 # C03 — every element is dropped exactly once and never while still reachable
 
@@ -74,5 +75,16 @@ outputs and contents agree with the abstract run by `C01_history`) -/
 theorem C03_history_ledger (cap : Nat) (ops : List Op) (s : Sys) (g : Good cap s) :
     (runOps ops s).2.log = Spec.histDrops s.kind cap ops (abs s.buf) ++ s.log :=
   history_ledger cap ops s g
+
+/-- **conservation along any finite history over the whole mutator API** (core operations and the ones
+that call `Clone`, a closure or an iterator): initial contents plus everything that entered — handed in,
+produced, cloned — is a permutation of final contents, everything handed out and everything
+destroyed.  Together with `C01_history_full` (the model's contents are the abstract ones at every step)
+no element is lost or duplicated along such a history. -/
+theorem C03_history_full (cap : Nat) (ops : List OpX) (xs : List Elem) (next : Nat) :
+    (xs ++ (Spec.tallyX cap ops xs next).1).Perm
+      ((Spec.runOpsX cap ops xs next).2 ++ (Spec.tallyX cap ops xs next).2.1 ++
+        (Spec.tallyX cap ops xs next).2.2) :=
+  Spec.historyX_conserves cap ops xs next
 
 end CircBuf
